@@ -46,7 +46,8 @@ pub fn build(form: u8, giant: usize, seed: u64) -> (PCfg, Vec<u8>, usize) {
     let mut rng = Rng::new(seed);
     let mut d: Vec<u8> = Vec::with_capacity(giant + 4096);
     let k1 = 3 + rng.below(40);
-    let k2 = 3 + rng.below(40);
+    // (sometimes thousands of items after the giant one: many refills that split tokens)
+    let k2 = if rng.chance(1, 2) { 3 + rng.below(40) } else { 500 + rng.below(6000) };
     let mut at = 0usize;
     let kind = match form % 6 {
         0 => {
@@ -222,7 +223,7 @@ impl Prop for Giant {
         }
         Meta {
             level: "exploration",
-            rule: "documents with ONE item of 64..160 MiB (cnf / btor2 / solver-log comment line, AIGER comment section, aag or btor2 symbol name) between ordinary items; the transcript under a seeded (chunk size in {4096, default, 65536, 1 MiB}, read size in {as offered, 64 KiB, 1 MiB, 1000003}, optional Interrupted before every read) is compared with the one-shot default-chunk transcript of the same bytes, and the number of items and the outcome are compared with the same document carrying a 9-byte item instead; non-trivial iff the scheduled source served >= 2 successful reads; distinct = distinct case parameters",
+            rule: "documents with ONE item of 1..8 MiB (two thirds of the runs) or 64..160 MiB (cnf / btor2 / solver-log comment line, AIGER comment section, aag or btor2 symbol name) between ordinary items (3..40 or 500..6500 items after it); the transcript under a seeded (chunk size in {1000, 4096, default, 65536, 1 MiB}, read size in {as offered, 1000, 4099, 64 KiB, 1 MiB, 1000003}, optional Interrupted before every read) is compared with the one-shot default-chunk transcript of the same bytes, and the number of items and the outcome are compared with the same document carrying a 9-byte item instead; non-trivial iff the scheduled source served >= 2 successful reads; distinct = distinct case parameters",
             assumptions: vec!["the giant item is free text: the grammar puts no limit on its length"],
             real: vec!["cnf / btor2 / aig / aag / solver-log parsers", "flussab::DeferredReader (buffer growth beyond 64 MiB)", "LineReader"],
             stub: vec!["byte source (SimSource)"],
@@ -238,31 +239,37 @@ impl Prop for Giant {
             };
         }
         match (tier, cfg!(debug_assertions)) {
-            (Tier::Quick, true) => 3,
-            (Tier::Quick, false) => 9,
-            (Tier::Thorough, true) => 12,
-            (Tier::Thorough, false) => 48,
+            (Tier::Quick, true) => 12,
+            (Tier::Quick, false) => 36,
+            (Tier::Thorough, true) => 60,
+            (Tier::Thorough, false) => 240,
         }
     }
     fn gen(&self, rng: &mut Rng, tier: Tier) -> GiantCase {
-        let giant = match tier {
-            Tier::Quick => *rng.pick(&[(64usize << 20) + 4096, 65 << 20, (64 << 20) - 14 * 1024]),
-            Tier::Thorough => *rng.pick(&[
-                (64usize << 20) + 4096,
-                65 << 20,
-                (64 << 20) - 14 * 1024,
-                100 << 20,
-                (128 << 20) + 1,
-                160 << 20,
-                17 << 20,
-            ]),
+        // two thirds of the runs: a "merely large" item of 1..8 MiB (beyond every megabyte
+        // threshold, cheap); the rest: 64..160 MiB
+        let giant = if rng.chance(2, 3) {
+            *rng.pick(&[(1usize << 20) + 1, 1_500_000, 3 << 20, (4 << 20) + 4097, 8 << 20])
+        } else {
+            match tier {
+                Tier::Quick => *rng.pick(&[(64usize << 20) + 4096, 65 << 20, (64 << 20) - 14 * 1024]),
+                Tier::Thorough => *rng.pick(&[
+                    (64usize << 20) + 4096,
+                    65 << 20,
+                    (64 << 20) - 14 * 1024,
+                    100 << 20,
+                    (128 << 20) + 1,
+                    160 << 20,
+                    17 << 20,
+                ]),
+            }
         };
         GiantCase {
             form: rng.below(6) as u8,
             giant,
             seed: rng.next_u64(),
-            chunk: *rng.pick(&[Some(4096usize), None, Some(65536), Some(1 << 20), Some(4096)]),
-            read: *rng.pick(&[0usize, 65536, 1 << 20, 1_000_003]),
+            chunk: *rng.pick(&[Some(4096usize), None, Some(65536), Some(1 << 20), Some(4096), Some(1000)]),
+            read: *rng.pick(&[0usize, 65536, 1 << 20, 1_000_003, 4099, 1000]),
             interrupts: rng.chance(1, 4),
         }
     }
